@@ -274,7 +274,7 @@ func xSidStructure(s *Src) bgp.LsSrv6SIDStructure {
 	return bgp.LsSrv6SIDStructure{LocalBlock: uint8(s.Intn(49)), LocalNode: uint8(s.Intn(33)), LocalFunc: uint8(s.Intn(33)), LocalArg: uint8(s.Intn(15))}
 }
 
-// xLsAttrSet fills the field of a for TLV kinds 0..33 (those NewLsAttributeTLVs builds).
+// xLsAttrSet fills the field of a for TLV kinds 0..33 (those NewLsAttributeTLVs builds; the Flex-Algo TLVs, which it builds last, are kinds 34 and 35 of xLsAttr).
 func xLsAttrSet(s *Src, a *bgp.LsAttribute, kind int) {
 	u32 := func() *uint32 { v := s.U32(); return &v }
 	u24 := func() *uint32 { v := xLabel24(s); return &v }
@@ -393,7 +393,7 @@ func xLsAttr(s *Src) bgp.PathAttributeInterface {
 		}
 	}
 	tlvs := bgp.NewLsAttributeTLVs(a)
-	if chosen[34] { // Flexible Algorithm Definition: no constructor, Serialize computes the length
+	if chosen[34] { // Flexible Algorithm Definition: built by hand (NewLsTLVFlexAlgoDef cannot carry the Unsupported / unknown sub-TLVs), Serialize computes the length
 		fad := &bgp.LsTLVFlexAlgoDef{LsTLV: xLsTLV(bgp.LS_TLV_FLEX_ALGO_DEF, 0), Algorithm: uint8(128 + s.Intn(128)),
 			MetricType: Pick(s, []uint8{0, 1, 2, 3, 127, 255}), CalcType: s.U8(), Priority: s.U8(),
 			ExcludeAny: xU32s(s, 2), IncludeAny: xU32s(s, 2), IncludeAll: xU32s(s, 2), ExcludeSRLG: xU32s(s, 2)}
